@@ -299,18 +299,19 @@ def _started(program, names, arg, fresh=()):
 
 def started_table(ctx, program, rid):
     uid = "__init__.py::start_global_contexts"
-    # (a) selection: everything named by the argument (and every context not started yet) is started; nothing outside the four script roots ever is
+    # (a) selection: every context that is not started yet is started (start() of a running context is a no-op, so whether running contexts are
+    #     selected again does not matter); nothing outside the four script roots ever is
     names = ["file.a", "apps.garden", "apps.garden.sensors", "apps.gardenia", "scripts.x.y", "modules.m", "jupyter_1", "weird"]
     known = ("file", "apps", "modules", "scripts")
-    for arg in (None, "*", "apps.garden", "file.a", "scripts.x"):
-        for fresh in ((), ("file.a", "jupyter_1")):
-            allowed = [n for n in names if n.split(".")[0] in known and "." in n]
-            must = [n for n in allowed if arg in (None, "*") or n == arg or n.startswith(arg + ".") or n in fresh]
-            got = _started(program, names, arg, fresh)
-            ok = got is not None and set(must) <= set(got) <= set(allowed) and len(set(got)) == len(got)
-            ctx.check(ok, rid, uid, f"selection for global_ctx={arg!r}, not yet started: {list(fresh)}",
-                      msg=f"start_global_contexts({arg!r}) over {names} (not yet started: {list(fresh)}) starts {got}; it must start {must} and nothing outside {allowed} "
-                      f"(unload_scripts/load_scripts select by the name itself and the contexts below it)", key=f"start selection {arg!r} {list(fresh)}", node=program.func(uid), rel="__init__.py")
+    for arg, fresh in ((None, tuple(names)), ("*", tuple(names)), ("apps.garden", ("apps.garden", "apps.garden.sensors")), ("apps.garden", ("apps.garden", "apps.garden.sensors", "file.a")),
+                       ("file.a", ("file.a",)), ("scripts.x", ("scripts.x.y", "jupyter_1")), ("modules.m", ("modules.m", "file.a")), ("file.a", ())):
+        allowed = [n for n in names if n.split(".")[0] in known and "." in n]
+        must = [n for n in allowed if n in fresh]
+        got = _started(program, names, arg, fresh)
+        ok = got is not None and set(must) <= set(got) <= set(allowed) and len(set(got)) == len(got)
+        ctx.check(ok, rid, uid, f"selection for global_ctx={arg!r}, not yet started: {list(fresh)}",
+                  msg=f"start_global_contexts({arg!r}) over {names} (not yet started: {list(fresh)}) starts {got}; it must start {must} and nothing outside {allowed}",
+                  key=f"start selection {arg!r} {list(fresh)}", node=program.func(uid), rel="__init__.py")
     # (b) composition with load_scripts on the file-tree models
     for label, ex, fl, arg, exp_del, exp_load in scenarios():
         res = _model_run(program, ex, fl, arg)
